@@ -324,3 +324,71 @@ func TestUnboundedMode(t *testing.T) {
 	}
 	t.Logf("unbounded: executions=%d states=%d truncated=%d", x.Stats.Executions, x.Stats.States, x.Stats.Truncated)
 }
+
+// Message passing through an atomic flag: the flag orders the data accesses (no race), both
+// values of the flag are observed, and the same program with a plain flag races. A Pool hands the
+// same object out again (LIFO) and starts empty in every execution.
+func TestLitmusAtomicPoolMap(t *testing.T) {
+	var so SyncObj
+	mp := func(out *[]string) {
+		data, flag := 0, false
+		done := MakeChan[int](0, "done")
+		Go("w", func() {
+			*W(&data, "w:data") = 1
+			so.Op("store")
+			flag = true
+			Close(done, "c")
+		})
+		so.Op("load")
+		if flag {
+			*out = append(*out, fmt.Sprint("seen ", *R(&data, "r:data")))
+		} else {
+			*out = append(*out, "unseen")
+		}
+		Recv(done, "r")
+	}
+	got, _ := outcomes(t, 2, false, Config{Race: true}, mp)
+	expect(t, "atomic message passing", got, "seen 1", "unseen")
+	plain := func(out *[]string) {
+		data, flag := 0, false
+		done := MakeChan[int](0, "done")
+		Go("w", func() {
+			*W(&data, "w:data") = 1
+			Yield("store")
+			flag = true
+			Close(done, "c")
+		})
+		Yield("load")
+		if flag {
+			_ = *R(&data, "r:data")
+			*out = append(*out, "seen")
+		}
+		Recv(done, "r")
+	}
+	got, _ = outcomes(t, 2, false, Config{Race: true}, plain)
+	expect(t, "plain flag", got, "", "seen,RACE")
+	var pool Pool
+	pool.New = func() any { return new(int) }
+	pl := func(out *[]string) {
+		a := pool.Get().(*int)
+		*a = 7
+		pool.Put(a)
+		b := pool.Get().(*int)
+		c := pool.Get().(*int)
+		*out = append(*out, fmt.Sprint(a == b, *b, a == c, *c))
+		pool.Put(c)
+	}
+	got, _ = outcomes(t, 1, false, Config{}, pl)
+	expect(t, "pool", got, "true 7 false 0")
+	var m Map
+	mpr := func(out *[]string) {
+		done := MakeChan[int](0, "done")
+		Go("w", func() { m.Store("k", 1); Close(done, "c") })
+		_, ok := m.Load("k")
+		Recv(done, "r")
+		*out = append(*out, fmt.Sprint(ok))
+		m.Delete("k")
+	}
+	got, _ = outcomes(t, 2, false, Config{}, mpr)
+	expect(t, "map", got, "false", "true")
+}
